@@ -17,7 +17,7 @@
    [pinned_writer_repaired] says which one /repo currently is (the driver runs the model with it). *)
 From Coq Require Import List NArith Bool.
 From NV Require Import Base.LE Bgzf.Crc32 Bgzf.Frame Bgzf.Writer.
-From NV Require Sinks.Sink Bgzf.Vpos Bgzf.ReaderOps Bgzf.FlatRef Bgzf.WriterTell.
+From NV Require Sinks.Sink Bgzf.Vpos Bgzf.ReaderOps Bgzf.FlatRef Bgzf.WriterTell Bgzf.Reader.
 Import ListNotations.
 Open Scope N_scope.
 
@@ -68,6 +68,23 @@ Definition f_write_frame (cdata : list N) (crc isize : N) (s : Sink.sink) : fres
       else (FErr e_invalid_input, s1)
   | (Sink.Err e, s1) => (FErr e, s1)
   | (Sink.OutOfFuel, s1) => (FPanic, s1)
+  end.
+
+(* the sink splits into frames (BSIZE walk as in WriterTell.sink_file) that take up all of it, each
+   with ISIZE <= 65536: the condition under which the file left behind is looked at *)
+Fixpoint frames_sane (fuel : nat) (src : list N) : bool :=
+  match fuel with
+  | O => false
+  | S k =>
+      match src with
+      | [] => true
+      | _ :: _ =>
+          match Reader.read_frame src with
+          | Ok (Some (fr, rest)) =>
+              (le_dec (skipn (length fr - 4) fr) <=? BGZF_MAX_ISIZE) && frames_sane k rest
+          | _ => false
+          end
+      end
   end.
 
 Section FW.
@@ -233,9 +250,11 @@ Section FW.
       let rows :=
         match rf with
         | FOk _ =>
-            let F := WriterTell.sink_file (S (length sb)) sb D in
-            if (FlatRef.total_csize F =? lenN sb) && (FlatRef.total_dlen F =? lenN D) then
-              Some (told_rows F n (f_vpos (f_init script) :: map (fun o => snd (fst o)) obs))
+            if frames_sane (S (length sb)) sb then
+              let F := WriterTell.sink_file (S (length sb)) sb D in
+              if (FlatRef.total_csize F =? lenN sb) && (FlatRef.total_dlen F =? lenN D) then
+                Some (told_rows F n (f_vpos (f_init script) :: map (fun o => snd (fst o)) obs))
+              else None
             else None
         | _ => None
         end in
